@@ -1,13 +1,191 @@
-//! C05 seeds, field inventory and entry points for "anim" (stub: not built yet).
+//! C05 seeds, field inventory and entry points for .anim files (wow_m2::AnimFile::parse).
+//!
+//! The parser knows two layouts (anim.rs):
+//!   modern: "MAOF" header (version, id_count, unknown, anim_entry_offset), id_count entries
+//!           (id, offset, size), and per entry a section "AFID" id start end, then
+//!           (size - 16) / 4 bone offsets, then for every non-zero offset a bone record
+//!           (bone_id, flags, [count, count x u32, count x vec3]   translation  if flags & 1,
+//!                            [count, count x u32, count x quat]   rotation     if flags & 2,
+//!                            [count, count x u32, count x vec3]   scaling      if flags & 4).
+//!           This is not an IFF chunk stream (the "AFID" marker has no size word), so no chunk
+//!           sequence is registered; the marker is registered as a `tag` field.
+//!   legacy: anything else; the parser only looks at the first 16 bytes / first KiB and returns a
+//!           placeholder section.
+//!
+//! Seeds are written with the library's `AnimFile::write`. One correction is applied to the modern
+//! seeds: `write_modern` stores the byte length of the whole section in `entry.size`, while
+//! `AnimSection::parse` derives the bone count from it ((size - 16) / 4), so a library-written file
+//! with bone records does not parse back. The seeds patch `entry.size` to 16 + 4 * bones (what the
+//! parser expects); "modern-static" needs no patch (no bone records).
 use crate::seed::{Aux, Seed};
-use crate::worker::Runner;
+use crate::worker::{errname, Runner};
+use std::io::Cursor;
+use wow_m2::anim::{
+    AnimBoneAnimation, AnimEntry, AnimHeader, AnimRotation, AnimScaling, AnimSection, AnimSectionHeader, AnimTranslation, LegacyStructureHints,
+    ANIM_MAGIC,
+};
+use wow_m2::common::{C3Vector, Quaternion};
+use wow_m2::{AnimFile, AnimFormat, AnimMetadata};
 
-pub fn seed_names(_thorough: bool) -> Vec<String> {
-    Vec::new()
+pub fn seed_names(thorough: bool) -> Vec<String> {
+    let mut v = vec!["modern-2sec".to_string(), "legacy-2sec".to_string()];
+    if thorough {
+        v.push("modern-static".into());
+        v.push("modern-1sec-rot".into());
+        v.push("legacy-1sec".into());
+    }
+    v
+}
+
+fn v3(k: u32) -> C3Vector {
+    C3Vector { x: k as f32, y: k as f32 * 0.5, z: 1.0 }
+}
+
+fn bone(id: u32, t: u32, r: u32, s: u32) -> AnimBoneAnimation {
+    AnimBoneAnimation {
+        bone_id: id,
+        translation: (t > 0).then(|| AnimTranslation { timestamps: (0..t).map(|k| k * 33).collect(), translations: (0..t).map(v3).collect() }),
+        rotation: (r > 0).then(|| AnimRotation {
+            timestamps: (0..r).map(|k| k * 40).collect(),
+            rotations: (0..r).map(|k| Quaternion { x: 0.0, y: 0.0, z: k as f32 * 0.1, w: 1.0 }).collect(),
+        }),
+        scaling: (s > 0).then(|| AnimScaling { timestamps: (0..s).map(|k| k * 50).collect(), scalings: (0..s).map(v3).collect() }),
+    }
+}
+
+fn section(id: u32, bones: Vec<AnimBoneAnimation>) -> AnimSection {
+    AnimSection { header: AnimSectionHeader { magic: *b"AFID", id, start: 0, end: 1000 + id }, bone_animations: bones }
+}
+
+fn sections(name: &str) -> Vec<AnimSection> {
+    match name {
+        "modern-2sec" | "legacy-2sec" => vec![
+            section(4, vec![bone(0, 3, 2, 0), bone(0, 0, 0, 0), bone(2, 0, 2, 2)]),
+            section(5, vec![bone(0, 0, 0, 0), bone(1, 2, 0, 0)]),
+        ],
+        "modern-static" => vec![section(1, vec![bone(0, 0, 0, 0), bone(0, 0, 0, 0), bone(0, 0, 0, 0)])],
+        "modern-1sec-rot" | "legacy-1sec" => vec![section(9, vec![bone(7, 0, 4, 0)])],
+        _ => wverif_common::tool_error(&format!("anim: unknown seed {name}")),
+    }
+}
+
+fn u32_at(b: &[u8], o: usize) -> u32 {
+    u32::from_le_bytes([b[o], b[o + 1], b[o + 2], b[o + 3]])
+}
+
+/// Register the key-frame blocks of one bone record starting at `p` (after bone_id); returns the
+/// position behind the record.
+fn bone_record(s: &mut Seed, mut p: usize, pre: &str) -> usize {
+    s.field(p, 4, "index", format!("{pre}.bone_id"));
+    s.field(p + 4, 4, "index", format!("{pre}.flags"));
+    let flags = s.u32_at(p + 4);
+    p += 8;
+    for (bit, nm, vsz) in [(1u32, "translation", 12usize), (2, "rotation", 16), (4, "scaling", 12)] {
+        if flags & bit != 0 {
+            let n = s.u32_at(p) as usize;
+            s.field_ex(p, 4, "count", format!("{pre}.{nm}.count"), p + 4, 4 + vsz, None);
+            p += 4 + n * (4 + vsz);
+        }
+    }
+    p
+}
+
+fn build_modern(name: &str) -> Seed {
+    let secs = sections(name);
+    let header = AnimHeader { magic: ANIM_MAGIC, version: 1, id_count: secs.len() as u32, unknown: 0, anim_entry_offset: 20 };
+    let entries: Vec<AnimEntry> = secs.iter().map(|x| AnimEntry { id: x.header.id, offset: 0, size: 0 }).collect();
+    let file = AnimFile { format: AnimFormat::Modern, sections: secs.clone(), metadata: AnimMetadata::Modern { header, entries } };
+    let mut out = Cursor::new(Vec::new());
+    file.write(&mut out).expect("anim: AnimFile::write (modern)");
+    let mut bytes = out.into_inner();
+    // entry.size := 16 + 4 * bones (see the module comment)
+    let eo = u32_at(&bytes, 16) as usize;
+    for (i, sec) in secs.iter().enumerate() {
+        let want = 16 + 4 * sec.bone_animations.len() as u32;
+        bytes[eo + 12 * i + 8..eo + 12 * i + 12].copy_from_slice(&want.to_le_bytes());
+    }
+    let mut s = Seed::new("anim", name, bytes);
+    s.field(0, 4, "index", "hdr.magic");
+    s.field(4, 4, "index", "hdr.version");
+    s.field_ex(8, 4, "count", "hdr.id_count", eo, 12, None);
+    s.field(12, 4, "index", "hdr.unknown");
+    s.field_ex(16, 4, "offset", "hdr.anim_entry_offset", 0, 1, None);
+    for (i, sec) in secs.iter().enumerate() {
+        let e = eo + 12 * i;
+        let so = s.u32_at(e + 4) as usize;
+        let nb = sec.bone_animations.len();
+        assert_eq!(&s.bytes[so..so + 4], b"AFID");
+        s.field(e, 4, "index", format!("entry[{i}].id"));
+        s.field_ex(e + 4, 4, "offset", format!("entry[{i}].offset"), 0, 1, None);
+        s.field_ex(e + 8, 4, "bsize", format!("entry[{i}].size"), so, 1, None);
+        s.field_ex(so, 4, "tag", format!("section[{i}].magic"), so + 16, 1, None);
+        s.field(so + 4, 4, "index", format!("section[{i}].id"));
+        s.field(so + 8, 4, "index", format!("section[{i}].start"));
+        s.field(so + 12, 4, "index", format!("section[{i}].end"));
+        let mut p = so + 16 + 4 * nb;
+        for j in 0..nb {
+            let op = so + 16 + 4 * j;
+            let off = s.u32_at(op) as usize;
+            if j == 0 || j + 1 == nb || off != 0 {
+                s.field_ex(op, 4, "offset", format!("section[{i}].bone_offset[{j}]"), 0, 1, None);
+            }
+            if off != 0 {
+                // the writer records the absolute position of the record; the parser reads the
+                // records sequentially
+                assert_eq!(off, p, "anim: bone record position");
+                p = bone_record(&mut s, p, &format!("section[{i}].bone[{j}]"));
+            }
+        }
+        assert!(p <= s.bytes.len());
+    }
+    s
+}
+
+fn build_legacy(name: &str) -> Seed {
+    let secs = sections(name);
+    let file = AnimFile {
+        format: AnimFormat::Legacy,
+        sections: secs.clone(),
+        metadata: AnimMetadata::Legacy {
+            file_size: 0,
+            animation_count: secs.len() as u32,
+            structure_hints: LegacyStructureHints { appears_valid: true, estimated_blocks: 1, has_timestamps: true },
+        },
+    };
+    let mut out = Cursor::new(Vec::new());
+    file.write(&mut out).expect("anim: AnimFile::write (legacy)");
+    let mut s = Seed::new("anim", name, out.into_inner());
+    // layout of write_legacy: count, count offsets, per section id start end bone_count and the
+    // bone records (bone_id, flags, key-frame blocks)
+    let n = s.u32_at(0) as usize;
+    assert_eq!(n, secs.len());
+    s.field_ex(0, 4, "count", "hdr.count", 4, 4, None);
+    for i in 0..n {
+        let so = s.u32_at(4 + 4 * i) as usize;
+        s.field_ex(4 + 4 * i, 4, "offset", format!("hdr.offset[{i}]"), 0, 1, None);
+        s.field(so, 4, "index", format!("section[{i}].id"));
+        s.field(so + 4, 4, "index", format!("section[{i}].start"));
+        s.field(so + 8, 4, "index", format!("section[{i}].end"));
+        let nb = s.u32_at(so + 12) as usize;
+        assert_eq!(nb, secs[i].bone_animations.len());
+        s.field_ex(so + 12, 4, "count", format!("section[{i}].bone_count"), so + 16, 8, None);
+        let mut p = so + 16;
+        for j in 0..nb {
+            p = bone_record(&mut s, p, &format!("section[{i}].bone[{j}]"));
+        }
+        assert!(p <= s.bytes.len());
+    }
+    s
 }
 
 pub fn build(name: &str) -> Seed {
-    wverif_common::tool_error(&format!("anim: unknown seed {name}"))
+    if name.starts_with("modern") {
+        build_modern(name)
+    } else {
+        build_legacy(name)
+    }
 }
 
-pub fn run(_r: &mut Runner, _bytes: &[u8], _aux: &Aux) {}
+pub fn run(r: &mut Runner, bytes: &[u8], _aux: &Aux) {
+    r.call("AnimFile::parse", || AnimFile::parse(&mut Cursor::new(bytes)).map(|_| ()).map_err(errname));
+}
